@@ -10,7 +10,7 @@ RULE = ("`d fn src params len` = digest over all 3^len sequences of one function
         "`dsplit`/`djoin`/`dm`/`dset` likewise for strings, string lists, maps and set pairs. Thorough: every predicate (8), value (3), "
         "function table (27), optional table (64), concat table (64), break table (8), relation (512), every applicable source kind "
         "(vector list deque forward_list set map array tuple mpl int_range enum_range), lengths 0..6, strings to length 7. "
-        "Quick: the same parameter spaces up to length 4 (large tables sampled per seed), strings to length 5. "
+        "Quick: the same parameter spaces up to length 5 (large tables sampled per seed), strings to length 5. "
         "Plus seeded samples of longer sequences (7..12), longer strings, sets over 0..9 and index_map histories. "
         "An op is non-trivial unless its sequence/len is empty/0.")
 ASSUMPTIONS = [
@@ -163,8 +163,8 @@ def param_tuples(spaces, rng, limit):
 
 def batches(rng, tier):
     thorough = tier == "thorough"
-    top = 6 if thorough else 4
-    limit = None if thorough else 24
+    top = 6 if thorough else 5
+    limit = None if thorough else 40
     r = rng.fork("params")
     for fn, spaces, kinds in fn_table():
         ops = []
